@@ -85,3 +85,12 @@ Proof. intro m. destruct m; reflexivity. Qed.
 Theorem mode_codes_distinct : c_CompressionDisabled <> c_CompressionContextTakeover /\ c_CompressionDisabled <> c_CompressionNoContextTakeover /\
   c_CompressionContextTakeover <> c_CompressionNoContextTakeover.
 Proof. repeat split; discriminate. Qed.
+
+(* the numeric literals the hand-written models use for opcodes and the two payload limits are the source's constants
+   (Gen/Consts.v is regenerated from the source on every run): 125 in handle_control / hdr_violation, 123 in the close
+   codec, opcodes 0 / 1 / 2 / 8 / 9 / 10 throughout *)
+Theorem model_literals_are_source :
+  c_maxControlPayload = 125%Z /\ c_maxCloseReason = 123%Z /\
+  c_opContinuation = 0%Z /\ c_opText = 1%Z /\ c_opBinary = 2%Z /\ c_opClose = 8%Z /\ c_opPing = 9%Z /\ c_opPong = 10%Z /\
+  c_MessageText = c_opText /\ c_MessageBinary = c_opBinary /\ (c_maxCloseReason + 2 = c_maxControlPayload)%Z.
+Proof. repeat split; reflexivity. Qed.
